@@ -35,6 +35,8 @@ PRELUDE_SETUP = [
     'def files-matcher FSM = ! is-empty', 'def program PGM = % prog a', "def text-source TS = 'text source'", 'def files-source FS = { file a.txt }',
     'def files-condition FC = { a.txt }',
     "file f.txt = <<EOF\nline 1\nline 2\nEOF", 'dir d = { file a.txt = "x"\n dir sub = { file b.txt } }', 'copy data.txt',
+    # strings that are built, two definitions down and below a reference that is not the last one, from a list / a path
+    'def string DEEP0 = "@[L]@"', 'def string DEEP = "@[DEEP0]@@[S]@"', 'def string DEEPP0 = @[P]@', 'def string DEEPP = "@[DEEPP0]@-@[N]@"',
     # texts whose last line has no line ending
     "file nonl.txt = 'line'", 'file nonl2.txt = -contents-of -rel-act f.txt -transformed-by strip -trailing-new-lines',
 ]
@@ -70,6 +72,7 @@ CORPUS = [
     ('setup', 'timeout = 5'), ('setup', 'timeout = none'), ('setup', 'timeout = @[N]@*2'), ('setup', "stdin = 'input'"), ('setup', 'stdin = -contents-of -rel-act f.txt'),
     ('setup', 'run % prog a @[L]@ "b"'), ('setup', 'run -ignore-exit-code @ PGM x'), ('setup', '$ echo hello > out.txt'), ('setup', '% prog a b'),
     ('setup', 'run -python -c :> import sys'), ('setup', 'run % prog\n -stdin TS'),
+    ('act', '% atc -existing-file -rel-act f.txt a'), ('act', '-rel-home exe a -existing-file -rel-home data.txt'), ('act', '@ PGM -existing-file -rel-act f.txt "x y"'),
     ('act', '% atc a "b c" @[S]@'), ('act', '$ atc | cat'), ('act', '-python -c :> print(1)'), ('act', '@ PGM x'), ('act', 'exe a b'),
     ('before-assert', 'run % prog'), ('before-assert', "file ba.txt = 'x'"), ('before-assert', 'cd d'), ('before-assert', 'env V = 1'), ('before-assert', 'timeout = 1'),
     ('before-assert', "def string BA = 'x'"), ('before-assert', '$ true'), ('before-assert', '% prog'), ('before-assert', 'dir ba-dir'), ('before-assert', 'copy data.txt ba-copy.txt'),
@@ -116,6 +119,7 @@ REPL = ['(', ')', '=', ':', '!', '&&', '||', '|', "'", '"', '@[', ']@', '@[S]@',
         '\xa0', '\x0c', '\x0b', '\x1c', '\x85', '\u2028', '\u3000', 'a\xa0b',
         # integers: too large to display; evaluation errors whose exception arguments are not strings / are missing
         '10**5000', '-10**5000', '2.0**10000', '{}[1]', "open('/non-existing')", 'next(iter(()))', '[][0]', '1<<(1<<20)<<0 if 0 else 1<<70', "int('9'*5000)",
+        '@[DEEP]@', '@[DEEPP]@',
         # empty strings where a pattern / name is wanted; an integer beyond float range (a timeout is handed to the OS as a float); a NUL character
         "''", '""', '10**400', '-10**400', 'a\x00b', '\x00',
         # integer expressions that try to end the interpreter
